@@ -97,6 +97,10 @@ def eval_own(c, rec):
             blobs.append(('message', bytes(msg)))
             encm, _ = enckit.pgpy_encrypt(msg, c['recips'], c['cipher'])
             blobs.append(('encrypted-message', bytes(encm)))
+            # objects derived through copy.copy emit packets as well
+            import copy
+            blobs.append(('copy-of-message', bytes(copy.copy(msg))))
+            blobs.append(('copy-of-encrypted-message', bytes(copy.copy(encm))))
     except Exception as e:   # noqa
         rec.note('own-build-rejected/%s/%s' % (kind, harness.exc_key(e)))
         rec.case(None, False, ('own-build-rejected',))
